@@ -29,6 +29,10 @@ type cliCase struct {
 	src   string
 	args  []string
 	stdin bool
+	// wantExit >= 0: this exit status is expected whatever the library says about the source (failures and
+	// information requests of the binary itself); noInput: do not pass -i
+	wantExit int
+	noInput  bool
 }
 
 func cliCases(e *env) []cliCase {
@@ -97,6 +101,24 @@ func cliCases(e *env) []cliCase {
 		os.WriteFile(path, []byte(cfg), 0o644)
 		cs = append(cs, cliCase{name: "command config " + cfg, src: avSrc, args: []string{"-cc", path}})
 	}
+	for i := range cs {
+		cs[i].wantExit = -1
+	}
+	// the binary's own failure and information paths: each ends with status 0 or 1 (2 for a malformed command line),
+	// never with a crash
+	okSrc := "script S { lock }\n"
+	cs = append(cs,
+		cliCase{name: "output file in a directory that does not exist", src: okSrc, args: []string{"-o", filepath.Join(e.workDir, "no_such_dir", "x", "out.inc")}, wantExit: 1},
+		cliCase{name: "output path is a directory", src: okSrc, args: []string{"-o", e.workDir}, wantExit: 1},
+		cliCase{name: "input file missing", src: okSrc, args: []string{"-i", filepath.Join(e.workDir, "no_such_input.pory")}, wantExit: 1, noInput: true},
+		cliCase{name: "input path is a directory", src: okSrc, args: []string{"-i", e.workDir}, wantExit: 1, noInput: true},
+		cliCase{name: "version", src: okSrc, args: []string{"-v"}, wantExit: 0, noInput: true},
+		cliCase{name: "help", src: okSrc, args: []string{"-h"}, wantExit: 0, noInput: true},
+		cliCase{name: "unknown flag", src: okSrc, args: []string{"-no-such-flag"}, wantExit: 2},
+		cliCase{name: "switch without =", src: okSrc, args: []string{"-s", "KEYONLY"}, wantExit: 2},
+		cliCase{name: "empty command config path", src: okSrc, args: []string{"-cc", ""}, wantExit: 0},
+		cliCase{name: "missing command config", src: okSrc, args: []string{"-cc", filepath.Join(e.workDir, "no_such_cc.json")}, wantExit: 1},
+	)
 	return cs
 }
 
@@ -191,7 +213,7 @@ func runCLI(ctx *h.Ctx, e *env) {
 		if !hasFC {
 			args = append(args, "-fc", e.fontValid)
 		}
-		if !c.stdin {
+		if !c.stdin && !c.noInput {
 			if err := os.WriteFile(file, []byte(c.src), 0o644); err != nil {
 				ctx.Inconclusive("cannot write CLI input file: %v", err)
 				return
@@ -244,6 +266,15 @@ func runCLI(ctx *h.Ctx, e *env) {
 		case signalled:
 			k.Count("cli_signalled", 1)
 			cliViolation(k, "cli-signal", fmt.Sprintf("poryscript CLI (%s) was killed by a signal instead of exiting with status 0 or 1", c.name), details)
+		case c.wantExit >= 0:
+			if exit != c.wantExit {
+				cliViolation(k, "cli-exit-unexpected", fmt.Sprintf("poryscript CLI (%s) exited with status %d, expected %d: %q", c.name, exit, c.wantExit, head(stderr, 200)), details)
+			} else if exit == 1 && !hasErrorLine(stderr) {
+				cliViolation(k, "cli-exit-1-unmarked", fmt.Sprintf("poryscript CLI (%s) exited with status 1 but no stderr line starts with \"PORYSCRIPT ERROR\": %q", c.name, head(stderr, 200)), details)
+			} else {
+				k.Count(fmt.Sprintf("cli_own_paths_exit_%d", exit), 1)
+			}
+			k.Nontrivial("cli-own", exit, c.name)
 		case exit == 0 || (exit == 1 && hasErrorLine(stderr)):
 			// a legal way to end; it must also be the RIGHT one: status 0 with output exactly when the library
 			// accepts the same input under the same options
